@@ -257,7 +257,7 @@ class OpsMixin:
         if x.conc is not None and y.conc is not None:
             p, q = x.conc, y.conc
             return {"<": p < q, "<=": p <= q, ">": p > q, ">=": p >= q, "==": p == q}[op]
-        if x is y:
+        if x is y or x.term == y.term:
             return op in ("<=", ">=", "==")
         d = x.iv.sub(y.iv)
         desc = f"{x!r} {op} {y!r}"
